@@ -617,6 +617,37 @@ func c17Chain(c *kit.Case, in c17Input, list types.StateKeyVals, want map[types.
 	if root != rootK {
 		c.Failf("BuildStateRootInputKeyValsAndRoot root %x != root of K %x", root, rootK)
 	}
+	// (1b) a SECOND import on the same node (the same key-values with every value perturbed, so it
+	// has the same size) must not disturb what the first import handed out: the first result is
+	// looked at again afterwards (an aliased/reused output buffer shows only now), and the second
+	// result must be right for the second input (a stale per-key cache shows here)
+	list2 := c17CopyKV(list)
+	want2 := make(map[types.StateKey][]byte, len(list2))
+	for i := range list2 {
+		v := append([]byte(nil), list2[i].Value...)
+		if kindOf[list2[i].Key] == 2 { // storage items are opaque to the parser: perturb only those
+			if len(v) < 32 && i%2 == 0 {
+				v = append(v, 0) // same content plus a trailing zero byte (still an embedded trie value)
+			} else if len(v) > 0 {
+				v[len(v)-1] ^= 0x5A
+			}
+		}
+		list2[i].Value = v
+		want2[list2[i].Key] = v
+	}
+	merkleIn2, root2, err2 := cs.BuildStateRootInputKeyValsAndRoot(c17CopyKV(list2))
+	c17SameSet(c, "first import's result, re-read after a second import on the same node", want, merkleIn, kindOf)
+	if err2 == nil {
+		// the perturbed values need not parse as the same components, so only the serialised
+		// state's integrity is judged when the parser accepted them
+		c17SameSet(c, "second import on the same node", want2, merkleIn2, kindOf)
+		if wantRoot2 := m.MerklizationSerializedState(list2); root2 != wantRoot2 {
+			c.Failf("second import on the same node: root %x, uncached root of its key-values %x", root2, wantRoot2)
+		}
+		c.Class("second_import_accepted")
+	} else {
+		c.Class("second_import_rejected_by_parser")
+	}
 
 	// (2) fuzz service SetState -> GetState (SetState resets the singleton itself)
 	var parent types.HeaderHash
